@@ -215,6 +215,47 @@ def check_mask_width(rep, mod):
         R.ok(sample='%d 64-bit AND instructions, none with a zero-extended 32-bit complement mask' % n64)
 
 
+def check_flush_reaches_int(rep, mod, K):
+    """a flush request is only honoured by the state machine behind isal_deflate_int (which reaches sync_flush); a path through isal_deflate that returns success
+    for a SYNC_FLUSH / FULL_FLUSH call without entering it (a 'nothing to do' shortcut) completes the call without marker or history reset"""
+    R = rep.rule('R-FLUSH-REACHES-INT', 'isal_deflate with flush == SYNC_FLUSH or FULL_FLUSH (control-flow graph partially evaluated for that value): every path to the return that does not come from a non-zero error '
+                 'exit passes through the call of isal_deflate_int - no shortcut returns success for a flush request without running the state machine that writes the marker and clears the history', floor=2, unit='flush modes')
+    f = mod.funcs.get('isal_deflate')
+    if f is None:
+        raise AnalysisBroken('isal_deflate not found')
+    off = c19.field_offsets('struct isal_zstream', ['flush'])['flush']
+    ev, succ, reach = partial_cfg(mod, f, 0, off)
+    ints = {i.block for i in f.all_insns() if i.op == 'call' and base_name(i.callee) == 'isal_deflate_int'}
+    if not ints:
+        raise AnalysisBroken('isal_deflate does not call isal_deflate_int')
+    ret = [i for i in f.all_insns() if i.op == 'ret'][0]
+    d = f.defs.get(ret.ops[0])
+    if d is None or d.op != 'phi':
+        raise AnalysisBroken('isal_deflate: return value is not a phi over exits')
+    for name in ('SYNC_FLUSH', 'FULL_FLUSH'):
+        R.instance()
+        r = reach(f.order[0], K[name], avoid=ints)
+        bad = []
+        for v, blk in d.extra['incoming']:
+            if blk not in r:
+                continue
+            # an error exit: a non-zero constant, or the result of a validation call tested non-zero on the way
+            if re.match(r'^-?\d+$', v) and int(v) != 0:
+                continue
+            dv = f.defs.get(v)
+            if dv is not None and dv.op == 'call' and base_name(dv.callee) != 'isal_deflate_int':
+                t = f.blocks[dv.block].insns[-1]
+                c = f.defs.get(t.extra.get('cond', '')) if t.op == 'br' else None
+                if c is not None and c.op == 'icmp' and irrules._strip(f, c.ops[0]) == v and c.ops[1] == '0':
+                    tt, tf = t.extra['targets']
+                    nz = tt if c.extra['pred'] == 'ne' else tf
+                    if nz == blk or f.dominates(nz, blk):
+                        continue
+            bad.append((v, blk))
+        R.check(not bad, mod.where(f, ret), 'with flush == %s isal_deflate can return %s from block %s without having called isal_deflate_int: the flush request is reported complete although no marker was written '
+                'and, for a full flush, the match history was not cleared' % (name, bad[0][0] if bad else '', bad[0][1] if bad else ''), key='R-FLUSH-REACHES-INT|' + name, sample='%s: every success return runs the state machine' % name)
+
+
 def main(tier):
     rep = Report('C14', tier, level='other')
     rep.undecided = UNDECIDED
@@ -229,4 +270,5 @@ def main(tier):
     check_marker(rep, mod, K)
     check_full_flush(rep, mod, K)
     check_mask_width(rep, mod)
+    check_flush_reaches_int(rep, mod, K)
     return rep.finish()
